@@ -21,6 +21,8 @@ type lpRow struct {
 	Scenario string `json:"scenario"`
 	Items    int    `json:"items"`
 	WaitedMs int64  `json:"waited_ms"`
+	// what is left of the first returned item's lease at the instant the call returns (store clock): the consumer asked for one minute
+	LeaseLeftNs int64 `json:"lease_left_ns"`
 	Err      string `json:"err,omitempty"`
 }
 
@@ -58,14 +60,19 @@ func longPoll(in []byte) (any, error) {
 			}
 			clk.set(base + int64(20*time.Millisecond))
 			type res struct {
-				n   int
-				err error
+				n    int
+				err  error
+				left int64
 			}
 			ch := make(chan res, 1)
 			t0 := time.Now()
 			go func() {
 				r, err := st.Dequeue(queue.DequeueRequest{Route: "/r", Target: "t", Batch: 5, LeaseTTL: time.Minute, MaxWait: time.Duration(req.MaxWaitMs) * time.Millisecond})
-				ch <- res{len(r.Items), err}
+				left := int64(0)
+				if len(r.Items) > 0 {
+					left = int64(r.Items[0].LeaseUntil.Sub(clk.now()))
+				}
+				ch <- res{len(r.Items), err, left}
 			}()
 			time.Sleep(40 * time.Millisecond) // the consumer is inside its wait now
 			switch scen {
@@ -77,6 +84,7 @@ func longPoll(in []byte) (any, error) {
 			select {
 			case r := <-ch:
 				row.Items = r.n
+				row.LeaseLeftNs = r.left
 				if r.err != nil {
 					row.Err = r.err.Error()
 				}
